@@ -407,13 +407,26 @@ void splinetable<Alloc>::write_fits(const std::string& filePath) const{
 		fitsfile* fits;
 		fits_cleanup(fitsfile* f):fits(f){}
 		~fits_cleanup(){
-			int error=0;
-			fits_close_file(fits, &error);
-			fits_report_error(stderr, error);
+			//A file which is still open here was not written completely:
+			//close it and remove the partial output
+			if(fits){
+				int error=0;
+				fits_delete_file(fits, &error);
+			}
 		}
 	} cleanup(fits);
 	
 	write_fits_core(fits);
+	
+	//CFITSIO buffers output, so failures to write typically surface only
+	//when the file is flushed and closed; they must not be swallowed.
+	cleanup.fits=nullptr; //fits_close_file releases the handle even if it fails
+	fits_close_file(fits, &error);
+	if (error != 0){
+		fits_report_error(stderr, error);
+		remove(filePath.c_str());
+		throw std::runtime_error("CFITSIO failed to write and close "+filePath);
+	}
 }
 	
 template<typename Alloc>
@@ -435,13 +448,22 @@ std::pair<void*,size_t> splinetable<Alloc>::write_fits_mem() const{
 			fitsfile* fits;
 			fits_cleanup(fitsfile* f):fits(f){}
 			~fits_cleanup(){
-				int error=0;
-				fits_close_file(fits, &error);
-				fits_report_error(stderr, error);
+				if(fits){
+					int error=0;
+					fits_close_file(fits, &error);
+				}
 			}
 		} cleanup(fits);
 		
 		write_fits_core(fits);
+		
+		//completing the last HDU can still fail (e.g. to grow the buffer)
+		cleanup.fits=nullptr; //fits_close_file releases the handle even if it fails
+		fits_close_file(fits, &error);
+		if (error != 0){
+			fits_report_error(stderr, error);
+			throw std::runtime_error("CFITSIO failed to complete and close the memory 'file'");
+		}
 	}catch(std::exception& ex){
 		throw std::runtime_error("Failed to write FITS memory 'file': \n"+std::string(ex.what()));
 	}
